@@ -12,6 +12,46 @@ Property theorems over `Model/Tx.lean` / `Model/Spendable.lean`, with `Spec/Wire
 namespace Pycoin
 open Pycoin.Wire
 
+/-! ## compact-size integers -/
+
+/-- C07.compact_size: every count and length in 0..2^64−1 is written in the standard compactSize form (1, 3, 5 or 9
+bytes with the boundaries at 0xfc/0xfd, 0xffff/0x10000, 2^32−1/2^32) and parses back, whatever follows -/
+theorem C07_compact_size_rt (n : Nat) (hn : n < 2 ^ 64) (rest : Bytes) :
+    streamSatoshiInt n = .ok (Spec.Wire.compactSize n) ∧
+      parseSatoshiInt none (Spec.Wire.compactSize n ++ rest) = .ok (n, rest) := by
+  have h := streamSatoshiInt_eq n hn
+  exact ⟨h, satoshiInt_law n _ rest trivial h⟩
+
+/-- values outside 0..2^64−1 are refused (`struct.error`), never truncated -/
+theorem C07_compact_size_range (v : Int) (h : v < 0 ∨ 18446744073709551616 ≤ v) :
+    streamSatoshiInt v = .error .structError := by
+  unfold streamSatoshiInt packLE
+  rcases h with h | h
+  · have h1 : v < 253 := by omega
+    have h2 : ¬ (0 ≤ v ∧ v < ((256 ^ 1 : Nat) : Int)) := by omega
+    simp only [h1, if_true, h2, if_false]
+  · have h1 : ¬ v < 253 := by omega
+    have h2 : ¬ v ≤ 65535 := by omega
+    have h3 : ¬ v ≤ 0xFFFFFFFF := by omega
+    have h4 : ¬ (0 ≤ v ∧ v < ((256 ^ 8 : Nat) : Int)) := by
+      have : ((256 ^ 8 : Nat) : Int) = 18446744073709551616 := by decide
+      omega
+    simp only [h1, h2, h3, if_false, h4, Except.map]
+
+#guard Spec.Wire.compactSize 0xFC == [0xFC]
+#guard Spec.Wire.compactSize 0xFD == [0xFD, 0xFD, 0x00]
+#guard Spec.Wire.compactSize 0xFFFF == [0xFD, 0xFF, 0xFF]
+#guard Spec.Wire.compactSize 0x10000 == [0xFE, 0x00, 0x00, 0x01, 0x00]
+#guard Spec.Wire.compactSize 0xFFFFFFFF == [0xFE, 0xFF, 0xFF, 0xFF, 0xFF]
+#guard Spec.Wire.compactSize 0x100000000 == [0xFF, 0, 0, 0, 0, 1, 0, 0, 0]
+
+
+/-- what the registered compact-size streamer writes for the boundary values (probed from the source on every run)
+is the standard encoding; the array count of `parse_struct` is read as a compact size -/
+theorem C07_compact_probes :
+    (∀ p ∈ Gen.Formats.compactProbes, Spec.Wire.compactSize p.1 = p.2) ∧ Gen.Formats.arrayCountIsCompactInt = true := by
+  decide +kernel
+
 /-! ## serialisation equals the wire format -/
 
 theorem hasWitnessData_eq (tx : Tx) : tx.hasWitnessData = Spec.Wire.hasWitness tx := by
